@@ -83,14 +83,17 @@ pub uninterp spec fn verified(p: PathBuf, id: Uuid) -> bool;                    
 // p is the record the parent id `pid` refers to: the content of backup_<pid>.json (parent walk of restore_from_backup) or the
 // listed record with that id (chain walk of restore_point_in_time)
 pub open spec fn is_parent_of(p: BackupMetadata, pid: Uuid) -> bool { p == stored_meta(pid) || p.id == pid }
+// element i of c is a non-Full record whose parent is element i - 1 (a named step keeps the quantifier of `rooted` free of matching loops)
+pub open spec fn link_ok(c: Seq<BackupMetadata>, i: int) -> bool {
+    c[i].backup_type != BackupType::Full && c[i].parent_id is Some && is_parent_of(c[i - 1], c[i].parent_id->Some_0)
+}
 // c is a parent chain in restore order: Full first, every later element a non-Full record whose parent is the previous one
 // (opaque: the quantifiers are only unfolded inside the lemmas below)
 #[verifier::opaque]
 pub open spec fn rooted(c: Seq<BackupMetadata>) -> bool {
     &&& c.len() >= 1
     &&& c[0].backup_type == BackupType::Full
-    &&& forall|i: int| 1 <= i < c.len() ==> (#[trigger] c[i]).backup_type != BackupType::Full
-            && c[i].parent_id is Some && is_parent_of(c[i - 1], c[i].parent_id->Some_0)
+    &&& forall|i: int| 1 <= i < c.len() ==> #[trigger] link_ok(c, i)
 }
 
 // ---- what a restore is asked for, and the chain that answers it
@@ -118,12 +121,13 @@ pub open spec fn first_child(l: Seq<BackupMetadata>, b: BackupMetadata, parent: 
 pub open spec fn no_child(l: Seq<BackupMetadata>, parent: Uuid, ts: u64) -> bool {
     forall|k: int| 0 <= k < l.len() ==> !is_child(#[trigger] l[k], parent, ts)
 }
+pub open spec fn child_ok(c: Seq<BackupMetadata>, i: int, ts: u64) -> bool { first_child(listing(), c[i], c[i - 1].id, ts) }
 // the point-in-time chain: newest Full <= ts, then repeatedly the first listed eligible child, until there is none
 #[verifier::opaque]
 pub open spec fn pitr_partial(c: Seq<BackupMetadata>, ts: u64) -> bool {
     &&& c.len() >= 1
     &&& newest_full(listing(), c[0], ts)
-    &&& forall|i: int| 1 <= i < c.len() ==> first_child(listing(), #[trigger] c[i], c[i - 1].id, ts)
+    &&& forall|i: int| 1 <= i < c.len() ==> #[trigger] child_ok(c, i, ts)
 }
 pub open spec fn pitr_chain(c: Seq<BackupMetadata>, ts: u64) -> bool {
     pitr_partial(c, ts) && c.len() >= 1 && no_child(listing(), c.last().id, ts)
@@ -144,19 +148,40 @@ pub proof fn lemma_pitr_push(c: Seq<BackupMetadata>, b: BackupMetadata, c2: Seq<
     ensures (pitr_partial(c, ts) && rooted(c) && c.len() >= 1 && first_child(listing(), b, c.last().id, ts) && c2 == c.push(b))
         ==> pitr_partial(c2, ts) && rooted(c2),
 {
-    reveal(pitr_partial);
-    reveal(rooted);
-    if pitr_partial(c, ts) && rooted(c) && first_child(listing(), b, c.last().id, ts) && c2 == c.push(b) {
+    if pitr_partial(c, ts) && rooted(c) && c.len() >= 1 && first_child(listing(), b, c.last().id, ts) && c2 == c.push(b) {
+        let n = c.len() as int;
+        let j = choose|j: int| #[trigger] first_child_at(listing(), j, c.last().id, ts) && listing()[j] == b;
+        assert(is_child(b, c[n - 1].id, ts));
+        assert(c2.len() == n + 1);
+        assert(c2[n] == b);
         assert(c2[0] == c[0]);
-        assert forall|i: int| 1 <= i < c2.len() implies first_child(listing(), #[trigger] c2[i], c2[i - 1].id, ts) by {
-            assert(c2[i - 1] == c[i - 1]);
-            if i < c.len() { assert(c2[i] == c[i]); }
-        }
-        assert forall|i: int| 1 <= i < c2.len() implies (#[trigger] c2[i]).backup_type != BackupType::Full
-            && c2[i].parent_id is Some && is_parent_of(c2[i - 1], c2[i].parent_id->Some_0) by {
-            assert(c2[i - 1] == c[i - 1]);
-            if i < c.len() { assert(c2[i] == c[i]); }
-        }
+        assert(c2[n - 1] == c[n - 1]);
+        lemma_pitr_push_partial(c, b, c2, ts);
+        lemma_pitr_push_rooted(c, b, c2, ts);
+    }
+}
+proof fn lemma_pitr_push_partial(c: Seq<BackupMetadata>, b: BackupMetadata, c2: Seq<BackupMetadata>, ts: u64)
+    requires pitr_partial(c, ts), c.len() >= 1, first_child(listing(), b, c.last().id, ts), c2 == c.push(b),
+    ensures pitr_partial(c2, ts),
+{
+    reveal(pitr_partial);
+    let n = c.len() as int;
+    assert(c2[0] == c[0]);
+    assert forall|i: int| 1 <= i < c2.len() implies #[trigger] child_ok(c2, i, ts) by {
+        assert(c2[i - 1] == c[i - 1]);
+        if i < n { assert(c2[i] == c[i]); assert(child_ok(c, i, ts)); } else { assert(c2[i] == b); assert(c[i - 1] == c.last()); }
+    }
+}
+proof fn lemma_pitr_push_rooted(c: Seq<BackupMetadata>, b: BackupMetadata, c2: Seq<BackupMetadata>, ts: u64)
+    requires rooted(c), c.len() >= 1, is_child(b, c.last().id, ts), c2 == c.push(b),
+    ensures rooted(c2),
+{
+    reveal(rooted);
+    let n = c.len() as int;
+    assert(c2[0] == c[0]);
+    assert forall|i: int| 1 <= i < c2.len() implies #[trigger] link_ok(c2, i) by {
+        assert(c2[i - 1] == c[i - 1]);
+        if i < n { assert(c2[i] == c[i]); assert(link_ok(c, i)); } else { assert(c2[i] == b); assert(c[i - 1] == c.last()); }
     }
 }
 // reading of "first in the listing" when the listing is sorted newest first: no eligible Full backup is newer than the selected one
